@@ -222,8 +222,16 @@ impl<'w> FnTr<'w> {
     /// `recv` = Some(receiver expression) for method calls (Rust parameter 0 of the callee is `self`)
     fn call_translated(&mut self, e: &Expr, info: &FnInfo, recv: Option<&Expr>, args: &[&Expr]) -> Res<Ex> {
         let has_self = info.rust_params.first().map(|s| s == "self").unwrap_or(false);
+        // (`*mv` / `&mv` of a variable: the variable)
+        fn strip_ref(e: &Expr) -> &Expr {
+            match e {
+                Expr::Unary(u) if matches!(u.op, syn::UnOp::Deref(_)) && matches!(strip(&u.expr), Expr::Path(_)) => strip_ref(strip(&u.expr)),
+                Expr::Paren(p) => strip_ref(&p.expr),
+                x => x,
+            }
+        }
         let rust_arg = |i: usize| -> Option<&Expr> {
-            if has_self { if i == 0 { recv } else { args.get(i - 1).copied() } } else { args.get(i).copied() }
+            if has_self { if i == 0 { recv } else { args.get(i - 1).copied().map(strip_ref) } } else { args.get(i).copied().map(strip_ref) }
         };
         let expected_args = info.rust_params.len() - if has_self { 1 } else { 0 };
         if args.len() != expected_args { return Err(self.err(e, "wrong number of arguments")); }
@@ -677,6 +685,12 @@ impl<'w> FnTr<'w> {
                 let (v, body) = self.tr_closure1(args[0], &t, Some(&RTy::Bool))?;
                 if body.ty != RTy::Bool || !body.pure { return Err(self.err(e, "`filter` predicate must be a bool expression that cannot panic")); }
                 let mut r = Ex::pure(format!("{}.filter (fun {} => {})", recv.a(), v, body.text), recv.ty.clone());
+                r.pure = recv.pure;
+                Ok(r)
+            }
+            // `ITER.rev()`: the reversed list of items
+            (RTy::Iter(_), "rev") if args.is_empty() => {
+                let mut r = Ex::pure(format!("List.reverse {}", recv.a()), recv.ty.clone());
                 r.pure = recv.pure;
                 Ok(r)
             }
